@@ -11,8 +11,10 @@
   `cfg` carries the literals extracted from the working tree.  `Legal cfg opNames n`
   (decidable) describes the names a Fortran project can produce: any name free of
   replaced symbols and of the suffix separator (identifiers in any letter case,
-  `operator(.x.)`, the empty name of unnamed units, file names) or one of the
-  operator / assignment spellings listed in `opNames`.
+  `operator(.x.)`, the empty name of unnamed units, file names - also with blanks),
+  one of the names listed in `opNames`, or an `operator`/`assignment` generic spec of
+  `opCores` written with any number of blanks between its tokens (`spellOp`; FORD keeps
+  the spelling of `interface operator ( + )` verbatim).
 -/
 import FordModel.NamesCfg
 import FordModel.Lemmas.Names
@@ -25,10 +27,14 @@ open Ford Ford.Names Ford.Generated.C10
     unnamed-stem literal that the unbounded theorems below rest on: the separator
     occurs neither in the unnamed stem nor in the image of any listed operator
     name, the symbol replacement is injective on the listed names, and none of
-    them is mapped to the unnamed stem.  Editing the dict literal, `"~"` or
-    `"__unnamed__"` in `get_name` changes this obligation. -/
+    them is mapped to the unnamed stem; blanks and parentheses are not replaced, the
+    separator is none of them, and keyword and operator token of every generic spec stay
+    recognisable and distinct after the replacement (so that `operator (+)` and
+    `operator(+)`, which FORD keeps as two names, also keep two stems).  Editing the
+    dict literal, `"~"` or `"__unnamed__"` in `get_name` changes this obligation. -/
 theorem table_ok : TableOK cfg opNames :=
-  ⟨by decide, by decide, by decide, by decide⟩
+  ⟨by decide, by decide, by decide, by decide, by decide, by decide, by decide, by decide, by decide,
+   by decide, by decide⟩
 
 /-- Clause "names that differ only in letter case / operator interfaces": on legal
     names the stem before numbering (`lower` + symbol replacement + `__unnamed__`)
@@ -112,14 +118,44 @@ theorem stems_case_witness :
 theorem identifiers_legal (n : Str) (ha : Ascii n) (hi : isIdent n = true) : Legal cfg opNames n :=
   ident_legal opNames cfg (by decide) (by decide) (by decide) (by decide) n ha hi
 
+/-- Clause "operator/assignment interfaces", any spacing: FORD keeps the generic spec of
+    `interface operator ( + )` verbatim, so the same operator written with different
+    blanks is a different name.  Every such spelling (any letter case, any number of
+    blanks after the keyword and inside the parentheses, all 13 intrinsic generic
+    specs) satisfies `Legal` - the theorems above therefore cover `operator (+)` next to
+    `operator(+)`, `assignment ( = )`, `OPERATOR( < )` ... -/
+theorem spellings_legal (n : Str) (p : Str × Str) (hp : p ∈ opCores) (a b c : Nat)
+    (h : lower n = spellOp p a b c) : Legal cfg opNames n := by
+  refine Or.inr (Or.inr ?_)
+  rw [h]
+  unfold OpSpelled
+  rw [parseSp_spell p (table_ok.core_good p hp).1 a b c]
+  exact ⟨hp, rfl⟩
+
+/-- ... and two spellings of generic specs get the same stem-before-numbering only when
+    they are the same operator in the same spacing: the symbol replacement (which runs
+    *after* the uses of a name were counted) never merges two spellings that were counted
+    as different names.  (An entry `" ": ""` in the dict would break exactly this.) -/
+theorem spellings_distinct (p q : Str × Str) (hp : p ∈ opCores) (hq : q ∈ opCores) (a b c a' b' c' : Nat)
+    (h : baseL cfg (spellOp p a b c) = baseL cfg (spellOp q a' b' c')) :
+    p = q ∧ a = a' ∧ b = b' ∧ c = c' := by
+  rw [baseL_spell cfg table_ok.keys_clear, baseL_spell cfg table_ok.keys_clear] at h
+  obtain ⟨e, ea, eb, ec⟩ :=
+    spellOp_inj _ _ (table_ok.core_good p hp).2 (table_ok.core_good q hq).2 _ _ _ _ _ _ h
+  exact ⟨table_ok.core_inj p hp q hq e, ea, eb, ec⟩
+
 /-- non-vacuity: the hypotheses of the theorems above admit the interesting names -/
 example : Legal cfg opNames "Foo".toList ∧ Legal cfg opNames "FOO_bar2".toList ∧ Legal cfg opNames [] ∧
     Legal cfg opNames "OPERATOR(<=)".toList ∧ Legal cfg opNames "operator(.Add.)".toList ∧
     Legal cfg opNames "assignment(=)".toList ∧ Legal cfg opNames "Util.F90".toList ∧
     Legal cfg opNames "<em>unnamed</em>".toList := by decide
+example : Legal cfg opNames "operator (+)".toList ∧ Legal cfg opNames "Operator( <  )".toList ∧
+    Legal cfg opNames "assignment  ( = )".toList ∧ Legal cfg opNames "operator ( // )".toList ∧
+    Legal cfg opNames "my mod.f90".toList ∧ Legal cfg opNames "operator ( .add. )".toList := by decide
 /-- ... and exclude exactly the spellings that would collide -/
 example : ¬ Legal cfg opNames "foo~2".toList ∧ ¬ Legal cfg opNames "__unnamed__".toList ∧
-    ¬ Legal cfg opNames "operator(lt)".toList ∧ ¬ Legal cfg opNames "a<b".toList := by decide
+    ¬ Legal cfg opNames "operator(lt)".toList ∧ ¬ Legal cfg opNames "a<b".toList ∧
+    ¬ Legal cfg opNames "operator ( lt )".toList ∧ ¬ Legal cfg opNames "operator (/ /)".toList := by decide
 
 /-- No stem contains `/` (the table replaces it and no replacement, the separator,
     the unnamed stem or a digit brings one back): for *every* name and number, so
@@ -191,6 +227,45 @@ theorem entity_dirs_disjoint (k : Kind) (parent : Option Kind) (g n : Bool) (d :
   have hall : ∀ x ∈ entityDirs, x ∈ outDirs ∧
       x ∉ ["lists", "src", "page", "search", "css", "js", "webfonts", "media"].map String.toList := by decide
   exact hall d hm
+
+/-- Clause "the page found at an entity's URL documents that entity / distinct items on one
+    page never share an anchor", for the one place where an entity does *not* use a stem of
+    its own: a procedure for which `is_interface_procedure` (generated from the source)
+    holds takes `ident` (hence anchor `proc-<ident>` and URL `interface/<ident>.html`) from
+    its parent interface.  For every interface block - named or not, abstract or not, with
+    any number of bodies - an interface entity whose children borrow its identifier has at
+    most one child: the borrowed identifier is used by the wrapper and its single procedure
+    only, never by two procedures. -/
+theorem borrowers_alone (b : Block) (e : Bool × List Nat) (he : e ∈ ifaceEntities b)
+    (k pk : Kind) (hpk : isInterfaceKind pk = true) (hb : identBorrows k (some pk) e.1 = true) :
+    ∀ c1 ∈ e.2, ∀ c2 ∈ e.2, c1 = c2 := by
+  unfold ifaceEntities at he
+  by_cases h1 : (b.named && b.abstract) = true
+  · rw [if_pos h1] at he; cases he
+  · rw [if_neg h1] at he
+    by_cases h2 : b.named = true
+    · rw [if_pos h2] at he
+      simp at he
+      subst he
+      simp [identBorrows, parentIsInterface, hpk, Ford.Generated.C10.isInterfaceProcedure] at hb
+    · rw [if_neg h2] at he
+      obtain ⟨p, _, rfl⟩ := List.mem_map.1 he
+      intro c1 h1 c2 h2
+      simp at h1 h2
+      rw [h1, h2]
+
+/-- ... and the bodies of a generic interface (all listed on the one page of the generic)
+    keep identifiers of their own: they are numbered like every other entity
+    (`stems_injective`, `anchors_distinct` apply to them). -/
+theorem generic_children_own_ident (k : Kind) (parent : Option Kind) :
+    identBorrows k parent true = false := by
+  cases k <;> cases parent <;> simp [identBorrows, isProcKind, Ford.Generated.C10.isInterfaceProcedure]
+
+/-- non-vacuity of `borrowers_alone`: a plain block with two bodies yields two wrappers whose
+    child borrows; a generic block with two bodies yields one entity with two children -/
+example : ifaceEntities ⟨false, false, [1, 2]⟩ = [(false, [1]), (false, [2])] ∧
+    ifaceEntities ⟨true, false, [1, 2]⟩ = [(true, [1, 2])] ∧
+    identBorrows .function (some .modprocinterface) false = true := by decide
 
 /-- Anchors `obj-quote(stem)`: the anchor determines the object kind word and the
     stem (quoting is injective, no kind word contains `-`), so two items on one
